@@ -258,6 +258,8 @@ def run(prog, rep, tier='quick'):
                     fattr = F.split('__')[-1] if '__' in F else F
                     guarded = False
                     for tst, truth, _c in p.conds:
+                        while isinstance(tst, ast.UnaryOp) and isinstance(tst.op, ast.Not):
+                            tst, truth = tst.operand, not truth          # `if not (a == b):` is `if a != b:`
                         for cmp_ in [x for x in ast.walk(tst) if isinstance(x, ast.Compare) and len(x.ops) == 1]:
                             sides_ = [cmp_.left, cmp_.comparators[0]]
                             has_f = any(isinstance(s_, ast.Attribute) and s_.attr.lstrip('_') == fattr.lstrip('_') for s_ in sides_)
